@@ -256,6 +256,7 @@ func isMakeWithCount(e ast.Expr, recv string) bool {
 }
 
 func decodeOps(stmts []ast.Stmt, recv string, fieldOf map[string]string, inlineHelper func(name string) []ast.Stmt, c *Ctx) []wop {
+	stmts = normStmts(stmts)
 	lab := func(v string) string {
 		if f, ok := fieldOf[v]; ok {
 			return f
@@ -848,6 +849,7 @@ func ruleZ3(c *Ctx) {
 	for _, fd := range serialMethods(c, "decoder") {
 		decBodies.List = append(decBodies.List, fd.Body)
 	}
+	decBodies = normDeep(decBodies)
 	ast.Inspect(encBodies, func(n ast.Node) bool {
 		ts, ok := n.(*ast.TypeSwitchStmt)
 		if !ok {
@@ -1290,4 +1292,128 @@ func constOfAny(c *Ctx, e ast.Expr) (int64, bool) {
 		return 0, false
 	}
 	return constOf(pk.TypesInfo, e)
+}
+
+// ---- AST normalisation: if/else-if chains on one variable are switches ----
+
+// ifChainArms decodes `if x == K1 {..} else if x == K2 {..} else {..}` (x an identifier compared
+// with constant-like expressions); ok is false for any other shape.
+func ifChainArms(st *ast.IfStmt) (subject string, clauses []ast.Stmt, ok bool) {
+	cur := st
+	for {
+		if cur.Init != nil {
+			return "", nil, false
+		}
+		be, isBE := cur.Cond.(*ast.BinaryExpr)
+		if !isBE || be.Op != token.EQL {
+			return "", nil, false
+		}
+		var id *ast.Ident
+		var k ast.Expr
+		if x, isID := be.X.(*ast.Ident); isID {
+			id, k = x, be.Y
+		}
+		if id == nil {
+			return "", nil, false
+		}
+		if subject == "" {
+			subject = id.Name
+		} else if subject != id.Name {
+			return "", nil, false
+		}
+		clauses = append(clauses, &ast.CaseClause{Case: cur.Pos(), List: []ast.Expr{k}, Body: cur.Body.List})
+		switch e := cur.Else.(type) {
+		case nil:
+			return subject, clauses, len(clauses) >= 2
+		case *ast.IfStmt:
+			cur = e
+		case *ast.BlockStmt:
+			clauses = append(clauses, &ast.CaseClause{Case: e.Pos(), Body: e.List})
+			return subject, clauses, len(clauses) >= 2
+		default:
+			return "", nil, false
+		}
+	}
+}
+
+// normStmts rewrites, in a copy of the list,
+//
+//	tag := X; if tag == K1 {...} else if tag == K2 {...}      and      tag := X; switch tag {...}
+//
+// into `switch tag := X; tag {...}` - the one form the codec rules understand.
+func normStmts(list []ast.Stmt) []ast.Stmt {
+	var out []ast.Stmt
+	for i := 0; i < len(list); i++ {
+		s := list[i]
+		var sw *ast.SwitchStmt
+		switch st := s.(type) {
+		case *ast.IfStmt:
+			if subj, clauses, ok := ifChainArms(st); ok {
+				sw = &ast.SwitchStmt{Switch: st.Pos(), Tag: ast.NewIdent(subj), Body: &ast.BlockStmt{List: clauses}}
+			}
+		case *ast.SwitchStmt:
+			if id, ok := st.Tag.(*ast.Ident); ok && st.Init == nil {
+				cp := *st
+				cp.Tag = ast.NewIdent(id.Name)
+				sw = &cp
+			}
+		}
+		if sw != nil && len(out) > 0 {
+			if as, ok := out[len(out)-1].(*ast.AssignStmt); ok && as.Tok == token.DEFINE && len(as.Lhs) == 1 && len(as.Rhs) == 1 {
+				if l, ok := as.Lhs[0].(*ast.Ident); ok && l.Name == sw.Tag.(*ast.Ident).Name {
+					sw.Init = as
+					out[len(out)-1] = sw
+					continue
+				}
+			}
+		}
+		if sw != nil {
+			if _, wasIf := s.(*ast.IfStmt); wasIf {
+				out = append(out, sw)
+				continue
+			}
+		}
+		out = append(out, s)
+	}
+	return out
+}
+
+// normDeep applies normStmts to a block and, recursively, to every nested statement list.
+func normDeep(b *ast.BlockStmt) *ast.BlockStmt {
+	if b == nil {
+		return nil
+	}
+	nb := &ast.BlockStmt{Lbrace: b.Lbrace, Rbrace: b.Rbrace, List: normStmts(b.List)}
+	for i, s := range nb.List {
+		switch st := s.(type) {
+		case *ast.BlockStmt:
+			nb.List[i] = normDeep(st)
+		case *ast.IfStmt:
+			cp := *st
+			cp.Body = normDeep(st.Body)
+			if eb, ok := st.Else.(*ast.BlockStmt); ok {
+				cp.Else = normDeep(eb)
+			}
+			nb.List[i] = &cp
+		case *ast.ForStmt:
+			cp := *st
+			cp.Body = normDeep(st.Body)
+			nb.List[i] = &cp
+		case *ast.RangeStmt:
+			cp := *st
+			cp.Body = normDeep(st.Body)
+			nb.List[i] = &cp
+		case *ast.SwitchStmt:
+			cp := *st
+			body := &ast.BlockStmt{}
+			for _, cl := range st.Body.List {
+				cc := *(cl.(*ast.CaseClause))
+				cc.Body = normDeep(&ast.BlockStmt{List: cc.Body}).List
+				body.List = append(body.List, &cc)
+			}
+			cp.Body = body
+			nb.List[i] = &cp
+		}
+	}
+	return nb
 }
